@@ -2,10 +2,10 @@
 from framework.checklib import CorrResult
 from framework import coqrun
 from harness import evalcorr, gen
-from translator import t1_operators
+from translator import t1_operators, t9_circuit_core, t10_circuit_algos
 
 ID = 'C01'
-TRANSLATORS = [t1_operators.translate]
+TRANSLATORS = [t1_operators.translate, t9_circuit_core.translate, t10_circuit_algos.translate]
 PROPERTY_FILE = 'Properties/C01.v'
 THEOREMS = ['C01_operators_denote', 'C01_semantics_functional', 'C01_semantics_composes_denotations',
             'C01_full_evaluation_sound', 'C01_stack_evaluation_sound',
@@ -43,7 +43,10 @@ LEVEL_TEXT = ('proved in Coq for ALL well-formed circuits with operator-accepted
               'order, evaluator results equal), injective label renaming preserves WF and leaves evaluate and the truth '
               'table EQUAL, duplicated operands/outputs need no special case; the model is tied to the code by '
               'regeneration (T1) and exact correspondence of all entry points')
-LEVEL_NOTE = ('Coq kernel + vm_compute; translator T1; correspondence harness. Hypotheses of the totality/exactness '
+LEVEL_NOTE = ('Coq kernel + vm_compute; translator T1; the evaluation entry points evaluate_full_circuit, '
+              'evaluate_circuit, evaluate_circuit_outputs, evaluate, evaluate_at, get_truth_table and top_sort are regenerated '
+              'from circuit.py by translators T9/T10 and proved equal to the model these theorems are about, on every WF '
+              'circuit (Properties/C02.v C02_algorithms_regenerated, C02_evaluators_regenerated_wf); correspondence harness. Hypotheses of the totality/exactness '
               'theorems: WF c (the C02 invariant), arity_ok c (necessary: C01_semantics_needs_arity - a gate with a '
               'rejected arity has no value and evaluation raises TypeError), assignment keys are inputs (necessary: a '
               'pre-assigned internal gate is used as given by evaluate_circuit, e.g. a INPUT, n=NOT a, o=IFF n with '
